@@ -19,6 +19,7 @@ RULE = (
     "with spaces, quotes, '-', leading/trailing blanks and the literal 'subject_name'; handlers producing NaN / inf / None / "
     "0 / 1; inputs with empty sides per group so that some metrics are uncomputable. Non-trivial = file with at least one "
     "finite and one missing value; distinct = hash of (configuration, subjects, inputs)."
+    ' Further families: the file continued by an evaluator declaring the groups in another order, values in exponent notation, round trips in an interpreter whose locale encoding is ASCII.'
 )
 ASSUMPTIONS = [
     "printable names without control characters (tab/newline are the file format's separators)",
